@@ -75,7 +75,8 @@ class FSide:
 
 
 class FWorld(DWorld):
-    def __init__(self, expected=(None, None), ping_interval=30.0, can_dilate=(True, True), no_listen=(False, False), dilate_first=True):
+    def __init__(self, expected=(None, None), ping_interval=30.0, can_dilate=(True, True), no_listen=(False, False), dilate_first=True, disjoint=False):
+        self.disjoint = disjoint        # side B offers (and accepts) only a dilation version side A does not know (a newer peer)
         self.net = Net()
         self.reactor = Reactor(self.net)
         self.noise = N.World(concrete=True)
@@ -97,7 +98,13 @@ class FWorld(DWorld):
         self._ctx = loader.shadow((CN, "NoiseConnection", N.IdealNoise), (CN, "build_noise", lambda: N.IdealNoise(self.noise)),
                                   (ipaddrs, "find_addresses", lambda: ["127.0.0.1"]), (M, "os", fos))
         self._ctx.__enter__()
-        self.sides = [FSide(self, i, dilation=self._fargs["can"][i]) for i in range(2)]
+        self.sides = []
+        for i in range(2):
+            if self.disjoint and i == 1:
+                with loader.shadow((CL.WMOD, "DILATION_VERSIONS", ["future-wizard"])):
+                    self.sides.append(FSide(self, i, dilation=self._fargs["can"][i]))
+            else:
+                self.sides.append(FSide(self, i, dilation=self._fargs["can"][i]))
         for s in self.sides:
             s.c.api("set_code", CODE)
         return self
